@@ -422,7 +422,7 @@ def run(ctx):
         ex = singles + pairs
     evaluate(ctx, ex, res)
     res['scopes']['exhaustive_singles_and_pairs'] = len(ex)
-    n = 8000 if ctx.deep else 1500
+    n = (60000 if ctx.tier == 'thorough' else 8000) if ctx.deep else 1500
     evaluate(ctx, [random_case(ctx.rng) for _ in range(n)], res)
     res['scopes']['generated'] = n
     return res.finish(RULE, exhaustive=ctx.deep)
